@@ -482,6 +482,33 @@ def d_range(site):
                                 for v, tb in switch_edges(body, sb):
                                     if v == 1 and edge_dominates(body, sb, tb, site.bb):
                                         return ('D-range', 'len(v) - 1 inside a loop over %d..len(v) of the same un-mutated Vec: the range yielded an item, so len(v) >= 1' % s0)
+                # ... or by the Some edge of next() of an iterator (iter / enumerate / into_iter chains) over the same v:
+                # an item was drawn, so len(v) >= 1
+                for c in body.live_calls:
+                    rd = c.rdef or ''
+                    if not rd.endswith('as std::iter::Iterator>::next') or not c.args:
+                        continue
+                    src = single_origin(trace_operand(body, c.args[0]))
+                    hops = 0
+                    while src is not None and src.kind == 'callres' and not src.proj and hops < 5 and (src.data.callee or '') in (
+                            'std::iter::IntoIterator::into_iter', 'std::iter::Iterator::enumerate', 'core::slice::<impl [T]>::iter', 'std::slice::<impl [T]>::iter',
+                            'std::vec::Vec::<T, A>::iter', 'std::iter::Iterator::rev', 'std::iter::Iterator::peekable', 'std::ops::Deref::deref'):
+                        src = single_origin(trace_operand(body, src.data.args[0]))
+                        hops += 1
+                    if src is None or hops == 0 or (src.kind, src.key()[1], src.proj) != (lo.kind, lo.key()[1], lo.proj):
+                        continue
+                    for sb in sorted(body.live_blocks):
+                        t = body.blocks[sb]['term']
+                        if t['k'] != 'switch':
+                            continue
+                        l = op_local(t['discr'])
+                        defs = du.defs.get(l, []) if l is not None else []
+                        if len(defs) == 1 and defs[0][2] == 'assign' and defs[0][3]['k'] == 'discr':
+                            dpl = defs[0][3]['pl']
+                            if dpl['l'] == c.dest['l'] and not dpl['p']:
+                                for v, tb in switch_edges(body, sb):
+                                    if v == 1 and edge_dominates(body, sb, tb, site.bb):
+                                        return ('D-range', 'len(v) - 1 inside a loop that has just drawn an item from an iterator over the same un-mutated slice: len(v) >= 1')
         return None
     return None
 
